@@ -61,6 +61,7 @@ class FunctionReport:
     unsupported: Optional[str] = None
     paths: int = 0
     solver_s: float = 0.0
+    paths_full: List[Any] = field(default_factory=list)  # (path condition, implementation outcome) per path, for the differential
 
     @property
     def failed(self) -> List[Obligation]:
@@ -135,6 +136,7 @@ def generate(world: World, interp: Interp, fi: FunctionInfo, contract: Contract,
         rep.unsupported = str(u)
         return rep
     rep.paths = len(paths)
+    rep.paths_full = [(list(p.pc[: p.outcome["n_impl_pc"]]), p.outcome["impl"]) for p in paths]
     for i, p in enumerate(paths):
         out = p.outcome
         impl = out["impl"]
